@@ -596,11 +596,33 @@ def no_shared_class_state(ctx, rep, rule, classes=None):
     shared = {}
     for c in classes:
         for s in c.node.body:
+            if isinstance(s, ast.AnnAssign) and s.value is not None and isinstance(s.target, ast.Name):
+                # `name: list = []` declares (and shares) the object just the same
+                s = ast.copy_location(ast.Assign(targets=[s.target], value=s.value), s)
             if isinstance(s, ast.Assign) and len(s.targets) == 1 and isinstance(s.targets[0], ast.Name):
                 v = s.value
                 if isinstance(v, (ast.List, ast.Dict, ast.Set, ast.ListComp, ast.DictComp, ast.SetComp)) or (
                         isinstance(v, ast.Call) and isinstance(v.func, ast.Name) and v.func.id in MUTABLE_CALLS):
                     shared.setdefault(s.targets[0].id, []).append((c, s))
+    # a class-level container whose literal holds mutable values: a shallow copy of it (`dict(X)`, `X.copy()`,
+    # `cls(X)`) is a fresh object, but the values inside are still the shared ones
+    deep = {}
+    for name, lst in shared.items():
+        for c_, st_ in lst:
+            v = st_.value
+            vals = list(v.values) if isinstance(v, ast.Dict) else list(getattr(v, 'elts', []))
+            if any(isinstance(x, (ast.List, ast.Dict, ast.Set)) or (
+                    isinstance(x, ast.Call) and isinstance(x.func, ast.Name) and x.func.id in MUTABLE_CALLS) for x in vals):
+                deep[name] = (c_, st_)
+    # functions returning (a shallow copy of) such a container: `return cls(cls.BOX)`
+    deep_makers = {}
+    for f in p.all_functions():
+        for n in walk_local(f.node):
+            if isinstance(n, ast.Return) and n.value is not None:
+                for x in ast.walk(n.value):
+                    if isinstance(x, ast.Attribute) and x.attr in deep and isinstance(x.value, ast.Name) \
+                            and x.value.id in ('self', 'cls') + tuple(p.classes):
+                        deep_makers[f.name] = x.attr
     nsite = 0
     MUT = {'append', 'extend', 'insert', 'add', 'update', 'remove', 'discard', 'pop', 'clear', 'sort', 'reverse',
            'setdefault', 'popitem', 'difference_update', 'intersection_update', 'symmetric_difference_update'}
@@ -612,12 +634,27 @@ def no_shared_class_state(ctx, rep, rule, classes=None):
             return isinstance(e, ast.Attribute) and e.attr in shared and isinstance(e.value, ast.Name) and (
                 e.value.id in ('self', 'cls') or e.value.id in p.classes)
         tainted = {}          # unparsed expression -> the class attribute it aliases
+        inner = {}            # name of a local holding a shallow copy of a `deep` container -> attribute
+        overridden = set()    # (local, key) given a fresh value since
         stmts = [n for n in walk_local(f.node) if isinstance(n, (ast.Assign, ast.AugAssign, ast.Expr))]
         stmts.sort(key=lambda n: (n.lineno, n.col_offset))
         for s in stmts:
+            if isinstance(s, ast.Assign) and len(s.targets) == 1 and isinstance(s.targets[0], ast.Name) \
+                    and isinstance(s.value, ast.Call):
+                fnn = s.value.func.attr if isinstance(s.value.func, ast.Attribute) else getattr(s.value.func, 'id', None)
+                if fnn in deep_makers and f.name != fnn:
+                    inner[s.targets[0].id] = deep_makers[fnn]
+                elif any(isinstance(x, ast.Attribute) and x.attr in deep and is_shared(x) for x in ast.walk(s.value)):
+                    inner[s.targets[0].id] = [x.attr for x in ast.walk(s.value) if isinstance(x, ast.Attribute)
+                                              and x.attr in deep][0]
+
             def alias_of(e):
                 if is_shared(e):
                     return e.attr
+                # a value read out of a shallow copy of a class-level container is the shared value
+                if isinstance(e, ast.Subscript) and isinstance(e.value, ast.Name) and e.value.id in inner \
+                        and isinstance(e.ctx, ast.Load) and (e.value.id, ast.unparse(e.slice)) not in overridden:
+                    return inner[e.value.id]
                 return tainted.get(ast.unparse(e))
             # mutations
             for c in ast.walk(s):
@@ -653,6 +690,11 @@ def no_shared_class_state(ctx, rep, rule, classes=None):
                         tainted[key] = a
                     else:
                         tainted.pop(key, None)
+                        if isinstance(t, ast.Subscript) and isinstance(t.value, ast.Name) and t.value.id in inner:
+                            overridden.add((t.value.id, ast.unparse(t.slice)))
+                        if isinstance(t, ast.Name):
+                            if not (isinstance(s.value, ast.Call) and t.id in inner):
+                                inner.pop(t.id, None)
     rep.ok(rule, "%d class-level mutable objects (%s); no mutation through an instance or an alias"
            % (len(shared), ", ".join(sorted(shared)) or "none"))
 
@@ -786,3 +828,142 @@ def topo_loops(ctx, f, depth=2, _seen=None, exclude=()):
                 if g is not None and g.name not in exclude:
                     out += topo_loops(ctx, g, depth - 1, _seen, exclude)
     return out
+
+
+# ======================================================= an iterable argument is run through once
+MATERIALISERS = ('set', 'list', 'tuple', 'frozenset', 'sorted', 'BestSet', 'dict')
+
+
+def params_consumed_once(ctx, rep, rule, funcs):
+    """an argument that may be a one-shot iterator (a generator, `filter(...)`, `map(...)`) is run through at
+    most once on every path, unless it was first materialised (`x = set(x)`): the second pass would find it
+    empty. Consumption = iterating it (for / comprehension), `in`, `*x`, or handing it to a call."""
+    n = 0
+    for f in funcs:
+        if f is None:
+            continue
+        params = [p for p in list(f.params)[(0 if f.is_static or f.cls is None else 1):] + list(f.kwonly)
+                  if p != f.vararg and p != getattr(f, 'kwarg', None)]
+        for pn in params:
+            n += 1
+            worst = _consumption(f.node.body, pn, 0)
+            rep.check(worst[0] < 2, rule, "%s: `%s` is run through at most once" % (f.qualname, pn), f.qualname,
+                      "`%s` is consumed twice on a path (second time at line %s) without having been copied into "
+                      "a collection first" % (pn, worst[1]),
+                      "when the caller passes a generator, the second pass finds it empty: e.g. keep_only(j for j "
+                      "in ...) keeps nothing")
+    rep.need(rule, n, 1, "iterable-looking parameters")
+
+
+def _uses(e, pn):
+    """number of consumptions of the name pn in expression e (in evaluation order is not needed: counts)"""
+    cnt = 0
+    line = None
+    for x in ast.walk(e):
+        hit = False
+        if isinstance(x, (ast.comprehension,)) and isinstance(x.iter, ast.Name) and x.iter.id == pn:
+            hit = True
+        elif isinstance(x, ast.Compare):
+            for op, c in zip(x.ops, x.comparators):
+                if isinstance(op, (ast.In, ast.NotIn)) and isinstance(c, ast.Name) and c.id == pn:
+                    hit = True
+        elif isinstance(x, ast.Call):
+            fn = dotted(x.func) or ''
+            last = fn.split('.')[-1]
+            iterating = last in MATERIALISERS or last in ('sum', 'any', 'all', 'max', 'min', 'enumerate', 'zip',
+                                                          'map', 'filter', 'join', 'extend', 'update', 'chain',
+                                                          'intersection', 'union', 'difference', 'iter', 'next',
+                                                          'intersection_update', 'difference_update')
+            for a in x.args:
+                if iterating and isinstance(a, ast.Name) and a.id == pn:
+                    hit = True
+                if isinstance(a, ast.Starred) and isinstance(a.value, ast.Name) and a.value.id == pn:
+                    hit = True
+        if hit:
+            # a membership test / iteration inside a comprehension body happens once per element
+            cnt += 1
+            line = getattr(x, 'lineno', line) or line
+    # uses inside the element / condition part of a comprehension repeat
+    for x in ast.walk(e):
+        if isinstance(x, (ast.ListComp, ast.SetComp, ast.GeneratorExp, ast.DictComp)):
+            inner = [x.elt] if not isinstance(x, ast.DictComp) else [x.key, x.value]
+            for g in x.generators:
+                inner += g.ifs
+            for part in inner:
+                c2, l2 = _uses(part, pn)
+                if c2:
+                    cnt += 1          # at least twice in all
+                    line = l2 or line
+    return cnt, line
+
+
+def _consumption(stmts, pn, start):
+    """(max number of consumptions of the object bound to pn along a path through stmts, line of the last one,
+    materialised?) - once `pn = set(pn)` has been executed, later uses are harmless"""
+    state = start
+    line = None
+    for s in stmts:
+        if isinstance(s, ast.If):
+            c, l = _uses(s.test, pn)
+            base = state + c
+            a = _consumption(s.body, pn, base)
+            b = _consumption(s.orelse, pn, base)
+            worst = max(a[0], b[0])
+            line = (a[1] if a[0] >= b[0] else b[1]) or l or line
+            if worst >= 2:
+                return (worst, line, False)
+            if a[2] and b[2]:
+                return (worst, line, True)
+            # a branch that materialised leaves a harmless object: only the other branch's count goes on
+            state = max(a[0] if not a[2] else base, b[0] if not b[2] else base)
+            continue
+        if isinstance(s, (ast.For, ast.AsyncFor, ast.While)):
+            head = s.iter if not isinstance(s, ast.While) else s.test
+            c, l = _uses(head, pn)
+            if not isinstance(s, ast.While) and isinstance(s.iter, ast.Name) and s.iter.id == pn:
+                c += 1
+                l = s.lineno
+            state += c
+            line = l or line
+            inner = _consumption(s.body, pn, 0)
+            if inner[0] >= 1 and not inner[2]:
+                state += 2          # consumed again at every iteration
+                line = inner[1] or line
+            if state >= 2:
+                return (state, line, False)
+            continue
+        if isinstance(s, ast.Try):
+            inner = _consumption(s.body + s.orelse + s.finalbody, pn, state)
+            if inner[0] >= 2 or inner[2]:
+                return inner
+            state, line = inner[0], inner[1] or line
+            continue
+        if isinstance(s, (ast.With, ast.AsyncWith)):
+            inner = _consumption(s.body, pn, state)
+            if inner[0] >= 2 or inner[2]:
+                return inner
+            state, line = inner[0], inner[1] or line
+            continue
+        # simple statement: its expressions are evaluated first, a rebinding of pn comes last
+        rebinds = isinstance(s, ast.Assign) and any(isinstance(t, ast.Name) and t.id == pn for t in s.targets)
+        for e in [x for x in ast.iter_child_nodes(s) if isinstance(x, ast.expr)]:
+            if rebinds and e is not s.value:
+                continue
+            c, l = _uses(e, pn)
+            state += c
+            line = l or line
+        if state >= 2:
+            return (state, line, False)
+        if rebinds and _is_materialisation(s.value, pn):
+            return (state, line, True)
+    return (state, line, False)
+
+
+def _is_materialisation(v, pn):
+    if isinstance(v, ast.Call) and isinstance(v.func, ast.Name) and v.func.id in MATERIALISERS:
+        return True
+    if isinstance(v, ast.IfExp):
+        return _is_materialisation(v.body, pn) or _is_materialisation(v.orelse, pn)
+    if isinstance(v, (ast.List, ast.Set, ast.Tuple, ast.ListComp, ast.SetComp)):
+        return True
+    return False
